@@ -23,6 +23,7 @@ def run(chk):
     pc.run_policy_check(chk, "C14", "proj_P14", {"p_metric": 0.9, "p_log": 0.7, "p_no_retry": 0.2}, oracle_pid="C14P", theorems_ok=ok,
                         cov_key="breaker_events", n_quick=200, n_thorough=3000)
     pc.run_c14_interleave_part(chk)
+    rc.slow_hooks_part(chk, "C14", OPTS)
     if ok:
         import source_tie
         source_tie.runner_ties(chk)
